@@ -40,10 +40,22 @@ Inductive sev :=
 | SRet                       (* Close / cancel returned *)
 | SHang | SPanic.
 
+Inductive errk := EKCanceled | EKDeadline | EKOther.
+
 Inductive case :=
 | CSeq (l : list (op * obs))
 | CSched (progs : list (list item)) (steps : list (tid * sev)) (final_blocked : bool) (final_len : nat)
-| CStress (ins : list (item * N)) (del : list (item * N)) (closed_seen : bool) (hang : bool).
+| CStress (ins : list (item * N)) (del : list (item * N)) (closed_seen : bool) (hang : bool)
+(* one goroutine: for each (item, k) in the script, k Inserts of the item (observed: how many
+   returned true); then Len; then Close and Next until "closed" (observed deliveries) *)
+| CBulk (script : list (item * N)) (news : list N) (len : nat) (dels : list (item * N)) (broken : bool)
+(* several goroutines released together insert the listed items (item, number of calls, how many
+   calls returned true), nobody consumes; then Len, then a drain by one goroutine *)
+| CBurst (ins : list (item * N * N)) (len : nat) (dels : list (item * N)) (broken : bool)
+(* producer and consumer in lock-step (insert one item, wait for its delivery), free running *)
+| CPing (rounds : N) (stalled : bool)
+(* which error Next returned when its context ended *)
+| CCtxErr (c : ctxk) (k : errk).
 
 (** ** decidable equalities *)
 
@@ -498,6 +510,64 @@ Definition check_stress (ins del : list (item * N)) (closed_seen hang : bool) : 
   else if forallb (fun ic => N.eqb (total_of (fst ic) ins) (total_of (fst ic) del)) (ins ++ del)
        then [] else [(O, 3)].
 
+(** ** Bulk: many insertions of one item / many distinct items *)
+
+Definition bulk_model_step (st : qstate * list N) (e : item * N) : qstate * list N :=
+  let r := N.iter (snd e) (fun sn : qstate * N =>
+                              let '(s', res) := insert_seq (fst sn) (fst e) in
+                              (s', match res with IOk true => snd sn + 1 | _ => snd sn end))
+                  (fst st, 0) in
+  (fst r, snd st ++ [snd r]).
+
+Fixpoint drain_model (fuel : nat) (s : qstate) : list (item * N) :=
+  match fuel with
+  | O => []
+  | S f => match locked_next s with
+           | Some (i, d, s') => (i, d) :: drain_model f s'
+           | None => []
+           end
+  end.
+
+Definition bulk_spec_step (st : aq * list N) (e : item * N) : aq * list N :=
+  let r := N.iter (snd e) (fun qn : aq * N =>
+                              let '(q', new) := aq_insert (fst e) (fst qn) in
+                              (q', if new then snd qn + 1 else snd qn))
+                  (fst st, 0) in
+  (fst r, snd st ++ [snd r]).
+
+Definition check_bulk (script : list (item * N)) (news : list N) (len : nat)
+           (dels : list (item * N)) (broken : bool) : list (nat * N) :=
+  if broken then [(O, 4)] else
+  let m := fold_left bulk_model_step script (q_init, []) in
+  let k := fold_left bulk_spec_step script ([], []) in
+  let ok_m := list_eqb N.eqb news (snd m) && Nat.eqb len (q_len (fst m))
+              && list_eqb pair_eqb dels (drain_model (S (q_len (fst m))) (fst m)) in
+  let ok_k := list_eqb N.eqb news (snd k) && Nat.eqb len (List.length (fst k))
+              && list_eqb pair_eqb dels (fst k) in
+  (if ok_m then [] else [(O, 1)]) ++ (if ok_k then [] else [(O, 2)]).
+
+(** ** Burst: concurrent inserts, no consumer.  Whatever the interleaving, each
+    inserted item is pending once, exactly one of its calls reported "new",
+    and it is delivered once with all the other calls as duplicates. *)
+
+Definition check_burst (ins : list (item * N * N)) (len : nat) (dels : list (item * N))
+           (broken : bool) : list (nat * N) :=
+  if broken then [(O, 4)] else
+  let used := filter (fun e => negb (N.eqb (snd (fst e)) 0)) ins in
+  if Nat.eqb len (List.length used)
+     && Nat.eqb (List.length dels) (List.length used)
+     && forallb (fun e => N.eqb (snd e) 1
+                          && existsb (fun d => N.eqb (fst d) (fst (fst e))
+                                               && N.eqb (snd d + 1) (snd (fst e))) dels) used
+  then [] else [(O, 2)].
+
+Definition check_ctxerr (c : ctxk) (k : errk) : list (nat * N) :=
+  match c, k with
+  | CtxCancelled, EKCanceled => []
+  | CtxShort, EKDeadline => []
+  | _, _ => [(O, 1)]          (* an implementation detail: which ctx error *)
+  end.
+
 (** ** verdicts *)
 
 Definition check_case (c : case) : list (nat * N) :=
@@ -508,6 +578,10 @@ Definition check_case (c : case) : list (nat * N) :=
       validate_run np 0 [l_init] progs false steps fb fl
       ++ ks_run 0 (mkKS [] false false (map (fun _ => KIdle) progs) progs false []) steps fb fl
   | CStress ins del cs hang => check_stress ins del cs hang
+  | CBulk script news len dels broken => check_bulk script news len dels broken
+  | CBurst ins len dels broken => check_burst ins len dels broken
+  | CPing _ stalled => if stalled then [(O, 5)] else []
+  | CCtxErr c k => check_ctxerr c k
   end.
 
 Fixpoint check_all_from (i : nat) (cs : list case) : list (nat * nat * N) :=
